@@ -726,3 +726,29 @@ pub fn node_at<'a>(t: &'a Ty, v: &'a DV, at: usize) -> Option<(&'a Ty, &'a DV)> 
     });
     out
 }
+
+// ---------------------------------------------------------------------------------------------
+// `Dyn`: the run-time type description behind a plain `Deserialize` impl, so that entry points
+// taking `T: DeserializeOwned` (from_str, from_slice, from_reader, from_multiple ...) can be
+// driven with generated types. The description is taken from a thread-local set by `with_ty`.
+thread_local! {
+    static DYN_TY: std::cell::RefCell<Option<Ty>> = const { std::cell::RefCell::new(None) };
+}
+
+#[derive(Debug, Clone, PartialEq)]
+pub struct Dyn(pub DV);
+
+/// run `f` with `ty` installed as the type `Dyn` deserializes as
+pub fn with_ty<R>(ty: &Ty, f: impl FnOnce() -> R) -> R {
+    DYN_TY.with(|c| *c.borrow_mut() = Some(ty.clone()));
+    let r = f();
+    DYN_TY.with(|c| *c.borrow_mut() = None);
+    r
+}
+
+impl<'de> serde::Deserialize<'de> for Dyn {
+    fn deserialize<Dz: Deserializer<'de>>(d: Dz) -> Result<Dyn, Dz::Error> {
+        let ty = DYN_TY.with(|c| c.borrow().clone()).expect("Dyn used outside with_ty");
+        D(&ty).deserialize(d).map(Dyn)
+    }
+}
